@@ -26,6 +26,15 @@ def ows_trim(b):
     return b[i:j]
 
 
+def decimal_value(digits):
+    """Value of a 1*DIGIT string of any length (no use of int() on long
+    strings: the interpreter limits that conversion)."""
+    d = digits.lstrip(b"0")
+    if len(d) > 30:
+        return 10 ** 30  # larger than any limit or stream
+    return int(d.decode("ascii") or "0")
+
+
 class Msg:
     """One request message as an RFC 9112 recipient extracts it."""
 
@@ -143,6 +152,15 @@ def _te_codings(values, either):
 def parse_chunked(buf, pos, max_body):
     """Decode a chunked body starting at pos.  Returns (body, trailers, end, either)
     or Reject / Need."""
+    r = _parse_chunked(buf, pos, max_body)
+    if isinstance(r, Need) and max_body is not None and len(buf) - pos >= max_body:
+        # the limit may be applied to the encoded size (the only protection
+        # against an unterminated control line or trailer): refusal permitted
+        r.either.append("raw-chunked-size-over-limit")
+    return r
+
+
+def _parse_chunked(buf, pos, max_body):
     body = bytearray()
     either = []
     raw = 0
@@ -169,7 +187,7 @@ def parse_chunked(buf, pos, max_body):
         r = check_chunk_ext(ext, either)
         if r is not None:
             return Reject(r, (400,), pos)
-        size = int(sp.decode("ascii"), 16)
+        size = int(sp.decode("ascii"), 16) if len(sp.lstrip(b"0")) < 30 else 16 ** 30
         pos = eol + 2
         if size == 0:
             break
@@ -298,8 +316,11 @@ def parse_one(buf, pos, max_header=None, max_body=None):
         if max_header is not None and n - start >= max_header:
             return Reject("header block too large", (431,), start)
         return Need("head", pos)
-    if max_header is not None and (end + 4 - start) >= max_header:
+    if max_header is not None and (end + 4 - q) >= max_header:
         return Reject("header block too large", (431,), start)
+    if max_header is not None and (end + 4 - start) >= max_header:
+        # empty lines / whitespace before the request line may be counted
+        m.either.append("leading-bytes-counted-toward-header-limit")
     head = buf[q:end]
     m.start = start
     lines, bare = _split_lines_strict(head)
@@ -339,6 +360,9 @@ def parse_one(buf, pos, max_header=None, max_body=None):
         elif c >= 0x80:
             if "obs-text-in-target" not in m.either:
                 m.either.append("obs-text-in-target")
+    if b"[" in target or b"]" in target:
+        # an IP-literal that does not parse may be refused (policy, T7)
+        m.either.append("bracket-in-target")
     m.method, m.target, m.version = method, target, ver
     # -- field lines ----------------------------------------------------------
     fl = parse_field_lines(lines[1:], m.either)
@@ -396,7 +420,7 @@ def parse_one(buf, pos, max_header=None, max_body=None):
         v = cl[0]
         if b"," in v:
             vals = [ows_trim(x) for x in v.split(b",")]
-            if all(len(x) > 0 and all(c in DIGITS for c in x) for x in vals) and len(set(int(x) for x in vals)) == 1:
+            if all(len(x) > 0 and all(c in DIGITS for c in x) for x in vals) and len(set(decimal_value(x) for x in vals)) == 1:
                 # RFC 9110 8.6: may be folded or rejected
                 m.either.append("content-length-list")
                 v = vals[0]
@@ -404,7 +428,7 @@ def parse_one(buf, pos, max_header=None, max_body=None):
                 return Reject("invalid Content-Length list", (400,), start)
         if len(v) == 0 or any(c not in DIGITS for c in v):
             return Reject("invalid Content-Length", (400,), start)
-        length = int(v.decode("ascii"))
+        length = decimal_value(v)
         if length > 0:
             if max_body is not None and length >= max_body:
                 return Reject("body too large", (413,), start)
